@@ -113,6 +113,38 @@ func shouldEscapeTextNode(data string) bool {
 	return strings.ContainsAny(data, "<>&\"'")
 }
 
+// renderDoctype serialises a doctype node, including public/system identifiers.
+func renderDoctype(node *html.Node) string {
+	var sb strings.Builder
+	sb.WriteString("<!DOCTYPE ")
+	sb.WriteString(node.Data)
+	var public, system string
+	for _, a := range node.Attr {
+		switch a.Key {
+		case "public":
+			public = a.Val
+		case "system":
+			system = a.Val
+		}
+	}
+	quote := func(s string) string {
+		if strings.Contains(s, `"`) {
+			return "'" + s + "'"
+		}
+		return `"` + s + `"`
+	}
+	if public != "" {
+		sb.WriteString(" PUBLIC " + quote(public))
+		if system != "" {
+			sb.WriteString(" " + quote(system))
+		}
+	} else if system != "" {
+		sb.WriteString(" SYSTEM " + quote(system))
+	}
+	sb.WriteString(">\n")
+	return sb.String()
+}
+
 func renderNode(w io.Writer, node *html.Node, indent int) error {
 	ctx := VueContext{}
 	return renderNodeWithContext(ctx, w, node, indent)
@@ -121,6 +153,9 @@ func renderNode(w io.Writer, node *html.Node, indent int) error {
 func renderNodeWithContext(ctx VueContext, w io.Writer, node *html.Node, indent int) error {
 	verifPoint(vpSerializeNode, indent, 0)
 	switch node.Type {
+	case html.DoctypeNode:
+		_, _ = w.Write([]byte(renderDoctype(node)))
+
 	case html.TextNode:
 		if strings.TrimSpace(node.Data) == "" {
 			return nil
